@@ -576,7 +576,7 @@ func init() {
 		Plan: func(tier string) []Plan {
 			n := 18
 			if tier == "thorough" {
-				n = 180
+				n = 1800
 			}
 			return []Plan{{Cases: n, Workers: 6, MaxProcs: 4, Timeout: 30 * time.Minute, HangIsViol: true},
 				{Cases: n / 3, Workers: 6, MaxProcs: 4, Timeout: 30 * time.Minute, HangIsViol: true}}
